@@ -411,19 +411,16 @@ impl Compiler {
                     // Make const size by transforming `(?<=a|bb)` to `(?<=a)|(?<=bb)`
                     let alternatives = &inner.children;
                     // atomic as a whole: once one alternative has matched, the others are
-                    // never tried
-                    if inner.hard {
-                        self.b.add(Insn::BeginAtomic);
-                        self.atomic_depth += 1;
-                    }
+                    // never tried. This holds for easy alternatives too: retrying them cannot
+                    // change the result, but it multiplies the paths through a loop.
+                    self.b.add(Insn::BeginAtomic);
+                    self.atomic_depth += 1;
                     self.compile_alt(alternatives.len(), |compiler, i| {
                         let alternative = &alternatives[i];
                         compiler.compile_positive_lookaround(alternative, la)
                     })?;
-                    if inner.hard {
-                        self.atomic_depth -= 1;
-                        self.b.add(Insn::EndAtomic);
-                    }
+                    self.atomic_depth -= 1;
+                    self.b.add(Insn::EndAtomic);
                     Ok(())
                 } else {
                     self.compile_positive_lookaround(inner, la)
